@@ -13,4 +13,11 @@ require (
 	github.com/pierrec/lz4/v4 v4.1.15
 )
 
+require (
+	github.com/xdg-go/pbkdf2 v1.0.0 // indirect
+	github.com/xdg-go/scram v1.1.2 // indirect
+	github.com/xdg-go/stringprep v1.0.4 // indirect
+	golang.org/x/text v0.23.0 // indirect
+)
+
 replace github.com/segmentio/kafka-go => /repo
